@@ -103,6 +103,25 @@ theorem c41_unfixed_counterexample :
     get old "/a/root".toList "../x".toList = .openFile "/a/x".toList := by
   decide
 
+/-- **A URL reference is never opened as a file**, whatever the flags are when it is read back (they may have
+been changed since the reference was stored): `Get` either goes to HTTP or reports the urlstore as disabled. -/
+theorem c41_url_never_file (cfg : Cfg) (root stored : Str) (h : isURL stored = true) :
+    get cfg root stored = .http ∨ get cfg root stored = .urlDisabled := by
+  unfold get
+  simp only [h, if_true]
+  cases cfg.allowUrls <;> simp
+
+/-- and a file reference accepted under one setting of the flags still resolves inside the root (or is refused)
+under any later setting -/
+theorem c41_get_inside_any_flags (cfg cfg2 : Cfg) (hfix : cfg.fixed = true) (root full r : Str)
+    (h : put cfg root full = .file r) :
+    get cfg2 root r = .openFile (clean full) ∨ get cfg2 root r = .disabled := by
+  have hu := c41_stored_not_url cfg hfix root full r h
+  have hc := c41_contained cfg hfix root full r h
+  unfold get
+  simp only [hu]
+  cases cfg2.allowFiles <;> simp [hc.2]
+
 /-- **PutMany** is all-or-nothing and every reference it stores went through the same check: each stored
 entry is a URL stored verbatim or a file reference lexically inside the root that resolves to the cleaned
 referenced path. -/
